@@ -220,6 +220,61 @@ pub fn check_history(steps: &[(u8, usize, i128, u32)]) -> Result<(), String> {
     Ok(())
 }
 
+/// Concurrent histories: `threads` threads, each walking its own few days (mostly staying on a
+/// day, sometimes switching) and round-tripping every value twice. Values never shared between
+/// threads, so any disagreement comes from state the library shares between calls.
+/// Failure is schedule-dependent: a replay re-runs the same stress, it cannot pin the interleaving.
+pub fn check_concurrent(seed: u64, threads: usize, iters: u64) -> Result<u64, String> {
+    let c = cal();
+    let start = std::sync::Barrier::new(threads);
+    let stop = std::sync::atomic::AtomicBool::new(false);
+    let results: Vec<Result<u64, String>> = std::thread::scope(|sc| {
+        let hs: Vec<_> = (0..threads)
+            .map(|t| {
+                let (start, stop) = (&start, &stop);
+                sc.spawn(move || -> Result<u64, String> {
+                    let mut sm = SplitMix(seed ^ mix64(0xc15c ^ t as u64));
+                    let days: Vec<i128> = (0..3).map(|_| c.first as i128 + sm.below(c.len() as u64) as i128).collect();
+                    let mut day = days[0];
+                    let mut done = 0u64;
+                    start.wait();
+                    for _ in 0..iters {
+                        if stop.load(std::sync::atomic::Ordering::Relaxed) {
+                            break;
+                        }
+                        if sm.below(4) == 0 {
+                            day = days[sm.below(3) as usize];
+                        }
+                        let sec = sm.below(86_400) as i128;
+                        let (kind, raw) = match sm.below(8) {
+                            0 => (Kind::Date, day),
+                            1 => (Kind::Ts, day * US_PER_DAY + sec * US_PER_SEC + sm.below(1_000_000) as i128),
+                            2 => (Kind::Time, sec * US_PER_SEC + sm.below(1_000_000) as i128),
+                            3 => (Kind::DT, (day * US_PER_DAY + sec * US_PER_SEC) * if sec % 2 == 0 { 1 } else { -1 }),
+                            4 => (Kind::YM, day * 37 % 2_136_000_000),
+                            _ => (Kind::Ora, day * US_PER_DAY + sec * US_PER_SEC),
+                        };
+                        for round in 0..2 {
+                            if let Err(m) = check_roundtrip(kind, raw) {
+                                stop.store(true, std::sync::atomic::Ordering::Relaxed);
+                                return Err(format!("thread {t} of {threads}, {} round of the same value: {m}", if round == 0 { "first" } else { "second" }));
+                            }
+                        }
+                        done += 2;
+                    }
+                    Ok(done)
+                })
+            })
+            .collect();
+        hs.into_iter().map(|h| h.join().unwrap_or_else(|_| Err("a worker thread panicked".into()))).collect()
+    });
+    let mut total = 0;
+    for r in results {
+        total += r?;
+    }
+    Ok(total)
+}
+
 pub fn eval(case: &Case) -> Verdict {
     if case.kind == "history" {
         let steps: Vec<(u8, usize, i128, u32)> = case.i.chunks(4).map(|c| (c[0] as u8, c[1] as usize, c[2], c[3] as u32)).collect();
@@ -227,6 +282,15 @@ pub fn eval(case: &Case) -> Verdict {
             Ok(()) => Verdict::Pass,
             Err(m) => Verdict::Fail(m),
         };
+    }
+    if case.kind == "concurrent" {
+        // several repetitions: the interleaving is not pinned by the replay file
+        for rep in 0..8u64 {
+            if let Err(m) = check_concurrent(case.i[0] as u64 ^ rep, case.i[1] as usize, case.i[2] as u64) {
+                return Verdict::Fail(m);
+            }
+        }
+        return Verdict::Pass;
     }
     let kind = Kind::from_index(case.i[0] as usize);
     let r = match case.kind.as_str() {
@@ -458,8 +522,24 @@ pub fn run(ctx: &Ctx) -> (Stats, Report) {
     }
     st.section("serialization_histories", &mut mark);
 
+    // concurrent histories: the same round trips from 16 threads at once
+    {
+        let iters = if ctx.thorough { 1_500_000 } else { 60_000 };
+        for rep in 0..4u64 {
+            match check_concurrent(seed ^ mix64(rep), THREADS, iters / 4) {
+                Ok(n) => {
+                    st.evaluations += n;
+                    st.nontrivial_enum += n;
+                    st.class_n("concurrent-round-trip", n);
+                }
+                Err(m) => st.fail(rep, Case::new(P, "concurrent", vec![(seed ^ mix64(rep)) as i128, THREADS as i128, (iters / 4) as i128], vec![]), m),
+            }
+        }
+    }
+    st.section("concurrent_histories", &mut mark);
+
     let rep = Report {
-        rule: "Round trips through serde_json and bincode: all dates, every second of the day x {0,1,999999} us, boundary+seeded pools of all six types; the JSON text must equal the reference rendering of the fixed layout in quotes and the binary form the little-endian raw count. Decoding: raw integers at every range limit +-0..3 and +-1e6, the i32/i64 extremes and seeded integers (uniform over the integer width, around the range, inside the range) as bincode payloads of every type (non-whole-second counts for the Oracle date included); JSON payloads made by 1..3 random edits of valid strings plus non-string JSON. Oracle: round trip returns the same value; any other payload yields Err or a value satisfying the range predicate (whole seconds for the Oracle date). Non-trivial = every round-tripped value; out-of-range binary payloads; every perturbed JSON payload (distinct by content).".into(),
+        rule: "Round trips through serde_json and bincode: all dates, every second of the day x {0,1,999999} us, boundary+seeded pools of all six types; the JSON text must equal the reference rendering of the fixed layout in quotes and the binary form the little-endian raw count. Decoding: raw integers at every range limit +-0..3 and +-1e6, the i32/i64 extremes and seeded integers (uniform over the integer width, around the range, inside the range) as bincode payloads of every type (non-whole-second counts for the Oracle date included); JSON payloads made by 1..3 random edits of valid strings plus non-string JSON. Concurrent histories: 16 threads, each walking its own three days (staying on a day 3 times out of 4) and round-tripping every value twice, so that any state the library shares between calls is hit from several threads (schedule-dependent: sound on any tree, sensitivity probabilistic). Oracle: round trip returns the same value; any other payload yields Err or a value satisfying the range predicate (whole seconds for the Oracle date). Non-trivial = every round-tripped value; out-of-range binary payloads; every perturbed JSON payload (distinct by content).".into(),
         assumptions: vec!["bincode 1.3 default configuration (little-endian fixed-width integers) and serde_json as the two data formats".into()],
         exhaustive: false,
         extra: Default::default(),
